@@ -16,6 +16,8 @@ RENAME13 = {"C07": {"A": "O", "B": "P"}, "C09": {"A": "O", "B": "P"}, "C13": {"A
             "C18": {"A": "M", "B": "N"}, "C20": {"A": "N", "B": "O"}}
 RENAME15 = {"C07": {"A": "Q", "B": "R"}, "C09": {"A": "Q", "B": "R"}, "C13": {"A": "Q", "B": "R"}, "C14": {"A": "O", "B": "P"}, "C17": {"A": "O", "B": "P"},
             "C18": {"A": "O", "B": "P"}, "C20": {"A": "P", "B": "Q"}}
+RENAME17 = {"C07": {"A": "S", "B": "T"}, "C09": {"A": "S", "B": "T"}, "C13": {"A": "S", "B": "T"}, "C14": {"A": "Q", "B": "R"}, "C17": {"A": "Q", "B": "R"},
+            "C18": {"A": "Q", "B": "R"}, "C20": {"A": "R", "B": "S"}}
 RENAME7 = {"C07": {"A": "I", "B": "J"}, "C09": {"A": "I", "B": "J"}, "C13": {"A": "I", "B": "J"}, "C14": {"A": "G", "B": "H"}, "C17": {"A": "G", "B": "H"},
            "C18": {"A": "G", "B": "H"}, "C20": {"A": "H", "B": "I"}}
 RENAME5 = {"C07": {"A": "G", "B": "H"}, "C09": {"A": "G", "B": "H"}, "C13": {"A": "G", "B": "H"}, "C14": {"A": "E", "B": "F"}, "C17": {"A": "E", "B": "F"},
@@ -35,7 +37,7 @@ results = []
 for patch in sorted(glob.glob(SEED_DIR + "/C*-out/patch_*.diff")):
     prop = re.search(r"/(C\d\d)-out/", patch).group(1)
     X = re.search(r"patch_(\w)\.diff", patch).group(1)
-    sid = f"{prop}-{(RENAME15[prop] if SEED_DIR.endswith('seed15') else RENAME13[prop] if SEED_DIR.endswith('seed13') else RENAME11[prop] if SEED_DIR.endswith('seed11') else RENAME9[prop] if SEED_DIR.endswith('seed9') else RENAME7[prop] if SEED_DIR.endswith('seed7') else RENAME5[prop] if SEED_DIR.endswith('seed5') else RENAME3.get(prop, RENAME) if SEED_DIR.endswith('seed3') else RENAME).get(X, X)}"
+    sid = f"{prop}-{(RENAME17[prop] if SEED_DIR.endswith('seed17') else RENAME15[prop] if SEED_DIR.endswith('seed15') else RENAME13[prop] if SEED_DIR.endswith('seed13') else RENAME11[prop] if SEED_DIR.endswith('seed11') else RENAME9[prop] if SEED_DIR.endswith('seed9') else RENAME7[prop] if SEED_DIR.endswith('seed7') else RENAME5[prop] if SEED_DIR.endswith('seed5') else RENAME3.get(prop, RENAME) if SEED_DIR.endswith('seed3') else RENAME).get(X, X)}"
     if only and prop not in only and sid not in only:
         continue
     demo = patch.replace("patch_", "demo_").replace(".diff", ".py")
